@@ -239,3 +239,35 @@ Proof.
               (conj cache_ok_nil_src eq_refl))))).
 Qed.
 Print Assumptions C19_nonvacuous.
+
+(* ---- the named-argument vector of a reused transit event slot (Format/NaSlot.v) ---- *)
+From Quill Require Format.NaSlot ExpectedNaSlot TieBE ExpectedBE.
+From QuillGen Require SrcFacts.
+
+(* whatever pairs the slot held (a transit event is reused; an earlier statement's pairs may still be there), after
+   _populate_formatted_named_args it holds exactly this statement's (placeholder name, formatted value) pairs, in order *)
+Theorem C19_slot_pairs_exact : forall (S : Type) (empty : S) (stale : list (S * S)) (names vals : list S),
+  length vals = length names ->
+  Format.NaSlot.populate S empty true stale names vals = combine names vals.
+Proof. exact Format.NaSlot.populate_exact. Qed.
+Print Assumptions C19_slot_pairs_exact.
+
+Theorem C19_slot_refuted_without_resize :
+  exists stale names vals, length vals = length names /\
+    Format.NaSlot.populate nat 0 false stale names vals <> combine names vals.
+Proof. exact Format.NaSlot.populate_refuted_without_resize. Qed.
+Print Assumptions C19_slot_refuted_without_resize.
+
+(* T-src: the source resizes the vector to the number of names and assigns keys by index (the variant proved above), and
+   the function, the processing of the lowest-timestamp event (which clears the vector after the try/catch) and
+   _process_transit_event are, statement by statement, the ones the model was written against *)
+Theorem C19_tie_slot :
+  QuillGen.SrcFacts.c19_named_args_resized = true /\
+  QuillGen.SrcFacts.sk_c19_populate_named_args = Quill.ExpectedNaSlot.sk_c19_populate_named_args /\
+  QuillGen.SrcFacts.sk_be_process_lowest_timestamp_transit_event = Quill.ExpectedBE.sk_be_process_lowest_timestamp_transit_event /\
+  QuillGen.SrcFacts.sk_be_process_transit_event = Quill.ExpectedBE.sk_be_process_transit_event.
+Proof.
+  split; [vm_compute; reflexivity|]. split; [vm_compute; reflexivity|].
+  exact (conj Quill.TieBE.src_be_process_lowest_timestamp_transit_event Quill.TieBE.src_be_process_transit_event).
+Qed.
+Print Assumptions C19_tie_slot.
